@@ -8,7 +8,9 @@ UD_FX_BEHAVIOURS = {"fx_ok": b"K", "fx_raise": b"R", "fx_none": b"N", "fx_import
                     "fx_hostile": b"S", "fx_keyerror": b"E", "fx_release_raise": b"X", "fx_release_none": b"Y",
                     "fx_release_ok": b"Z", "fx_raise_empty": b"M", "fx_raise_multiline": b"T"}
 # (creator, comp) pairs served by fixture modules (vf/fixtures/plugins/udparsers)
-FX_UD = [("O", 0xFA00), ("O", 0xFB00), ("B", 0xFA00), ("M", 0xFA00), ("X", 0xFA00), ("H", 0x4158), ("O", 0x00AB)]
+FX_UD = [("O", 0xFA00), ("O", 0xFB00), ("B", 0xFA00), ("M", 0xFA00), ("X", 0xFA00), ("H", 0x4158), ("O", 0x00AB),
+         # neighbours of the BMC's own component 0x2000 (built-in formats): ordinary components with their own parsers
+         ("O", 0x2001), ("O", 0x20FF), ("O", 0x2100), ("O", 0x1FFF)]
 
 
 def nul_pad(b: bytes, mult=4, extra=0) -> bytes:
@@ -70,7 +72,9 @@ def gen_user_section(rng, u, creator, ext=False, flavor=None, fixtures=True, plu
             payload = b"\0" * rng.choice([4, 8, 16, 64])
     elif flavor == "noparser":
         eff = creator if not ext else rng.choice("OBHMX?z")
-        comp = rng.choice([0x0100, 0x3000, 0x2001, 0x1FFF, 0xFFFF, 0, rng.randrange(0x10000)])
+        comp = rng.choice([0x0100, 0x3000, 0x2002, 0x20FE, 0x2080, 0x1FFE, 0xFFFF, 0, rng.randrange(0x10000)])
+        if comp in (0x2002, 0x20FE, 0x2080, 0x1FFE) and rng.random() < 0.6:
+            sub = rng.choice([1, 3, 2])         # JSON / text / CBOR sub-types mean something for BMC component 0x2000 only
         while (eff, comp) in FX_UD or (eff.lower(), comp) in (("o", 0xE500), ("m", 0x2C00), ("o", 0x2000),
                                                                 ("o", 0xFC00), ("o", 0xFD00)):
             comp = rng.randrange(0x10000)
@@ -83,6 +87,8 @@ def gen_user_section(rng, u, creator, ext=False, flavor=None, fixtures=True, plu
                 return gen_user_section(rng, u, creator, ext, "noparser", fixtures, plugins_enabled)
             eff, comp = rng.choice(cands)
         payload = UD_FX_BEHAVIOURS[flavor] + pm.gen_payload(rng, u)
+        if comp in (0x2001, 0x20FF, 0x2100, 0x1FFF) and rng.random() < 0.5:
+            sub = rng.choice([1, 3, 2])         # the sub-types that mean JSON / text / CBOR for component 0x2000 only
         if plugins_enabled:
             name = (eff.lower() + "%04X" % comp).lower()
             module = "udparsers.%s.%s" % (name, name)
